@@ -75,6 +75,19 @@ claim(
     "Bounded to the listed families.",
 )
 
+claim(
+    "C11",
+    "stateless exhaustive DFS over all dispatch histories with the feature observers subscribed from the start (all / per feature type / alone; with filters on positive instances); per-step oracle = from-scratch reference definitions on entities with work left; exhaustive constructibility sweep over instances x observer types x feature-type subsets",
+    "Every prefix of every history of the families: every feature of every entity that still has work left equals the reference recomputation; composite equals concatenation of its parts; every observer type x feature subset constructs on every instance of the families.",
+    "Bounded to the listed families; readings the documentation leaves open (IsCompleted job/machine flag between scheduled and completed, stale duration of ongoing operations) are accepted as pinned by the repository's golden test.",
+)
+claim(
+    "C12",
+    "bounded exhaustive event sequences h1.reset.h2 (every prefix h1, complete histories h2, double resets, chained episodes) x all creation orders of the inter-dependent observers, on the real Dispatcher/observers and on real SingleJobShopGraphEnv objects; differential oracle against freshly constructed objects",
+    "Every reset point of every history of the small-scope families, every creation order (28) of the dependent observers spread over the instances, complete snapshots after reset and along the next episode compared with fresh objects; env level: reset.a*.reset.a* for 4 builders x 2 rewards.",
+    "Quadratic space: quick replays a rotating window of complete histories after each reset point (all reset points are covered); thorough widens the window; bounded to <= 4 operations.",
+)
+
 PENDING = {
     f"C{n:02d}": "check not built yet in this revision (planned: bounded exhaustive exploration, see DESIGN.md)"
     for n in range(1, 21)
